@@ -76,6 +76,16 @@ def gen_country(rng, key, role, n, allow_portfolio, grid=True):
             'custom': custom, 'second_market': second}
 
 
+def add_bonds(rng, z, n):
+    """A second interest-bearing asset (a DepositMarket with code BOND, same issuer): portfolio households then hold
+    three assets - deposits, bonds and, as the residual, money."""
+    z['gov']['bonds'] = True
+    z['gov']['rb'] = [rng.choice([0.0, 0.015, 0.03, 0.05]) for _ in range(n)]
+    for c in z['countries']:
+        if c['role'] != 'central' and c['hh']['portfolio']:
+            c['hh']['bond_share'] = rng.choice([0.1, 0.2, 0.25])
+
+
 def gen_zone(rng, cur, kind, keys, n, ext, grid=True):
     form = rng.choice(['consolidated', 'consolidated', 'treasury_cb'] + (['gold', 'gold_cb'] if ext else []))
     gov = {'form': form, 'money': False, 'deposits': False, 'tax': round(rng.uniform(0.1, 0.35), 2 if grid else 6),
@@ -105,6 +115,8 @@ def gen_zone(rng, cur, kind, keys, n, ext, grid=True):
         gov['asset_markets_in'] = keys[1]      # money / deposit markets declared in a region, the issuer elsewhere
     z = {'cur': cur, 'kind': kind, 'xr': xr_path(rng, n) if ext else None, 'gov': gov, 'countries': countries,
          'internal_imports': []}
+    if gov['deposits'] and gov['money'] and rng.random() < 0.35:
+        add_bonds(rng, z, n)
     if kind == 'federation':
         regs = [c for c in countries if c['role'] == 'region']
         for c in regs:
@@ -242,6 +254,27 @@ def force_two_markets_with_household_buyer(rng, spec):
         return {c['key']: {'SRV': rng.choice(['GOOD2', 'GOOD_N', 'GOODS']), 'LAB': lab}}
     # ... or the goods market (declared first in the canonical order) carries the longer code
     return {c['key']: {'GOOD': rng.choice(['SRV2', 'SRV_N', 'SRVS']), 'LAB': lab}}
+
+
+def force_three_asset_portfolio(rng, spec):
+    """Zone 0 gets money, deposits and bonds, and every household there a portfolio over the three."""
+    z = spec['zones'][0]
+    g = z['gov']
+    if g['form'] in ('gold',):
+        return False
+    n = spec['maxtime'] + 3
+    g['money'] = g['deposits'] = True
+    if g.get('r') is None:
+        g['r'] = [rng.choice([0.0, 0.01, 0.02, 0.025, 0.04]) for _ in range(n)]
+    for c in z['countries']:
+        if c['role'] != 'central':
+            hh = c['hh']
+            if not hh['portfolio']:
+                hh['portfolio'] = rng.choice(['share', 'share', 'tobin'])
+                hh['share'] = rng.choice([0.25, 0.5, 0.6])
+            hh['F0'] = hh['F0'] or float(rng.randint(40, 120))
+    add_bonds(rng, z, n)
+    return True
 
 
 def ensure_cross_import(rng, spec):
@@ -420,6 +453,10 @@ def _build(spec, model=None, holder=None, order_seed=None, codes=None, ckey_map=
                     issuer = 'CB' if g['form'] in ('treasury_cb', 'gold_cb') else 'GOV'
                     steps.append(('MON', [], lambda country=country, issuer=issuer, ckc=central_key: S.__setitem__(
                         (ckc, 'MON'), MoneyMarket(country, issuer_short_code=code(ckc, issuer)))))
+                if g.get('bonds'):
+                    steps.append(('BOND', [], lambda country=country, gc0=gc0, ckc=central_key: S.__setitem__(
+                        (ckc, 'BOND'), DepositMarket(country, code='BOND', long_name='Bonds',
+                                                     issuer_short_code=code(ckc, gc0)))))
                 if g['deposits']:
                     steps.append(('DEP', [], lambda country=country, gc0=gc0, ckc=central_key: S.__setitem__(
                         (ckc, 'DEP'), DepositMarket(country, issuer_short_code=code(ckc, gc0)))))
@@ -507,6 +544,8 @@ def _build(spec, model=None, holder=None, order_seed=None, codes=None, ckey_map=
             ext['XR'].SetExogenous(z['cur'], list(z['xr']))
         if g['deposits'] and g['r'] is not None:
             S[(gkey, 'DEP')].SetExogenous('r', list(g['r']))
+        if g.get('bonds'):
+            S[(gkey, 'BOND')].SetExogenous('r', list(g['rb']))
         if g.get('tre_cash') is not None:
             S[(gkey, 'TRE')].SetExogenous('DEM_MON', list(g['tre_cash']))
         regions = [c for c in z['countries'] if c['role'] != 'central']
@@ -546,7 +585,11 @@ def _build(spec, model=None, holder=None, order_seed=None, codes=None, ckey_map=
                 hh.AddVariable('TaxRate', 'Sector-specific tax rate', repr(hs['own_tax']))
             if hs['portfolio']:
                 dep = S[(gkey, 'DEP')]
-                if hs['portfolio'] == 'share':
+                bs = hs.get('bond_share') if g.get('bonds') else None
+                if hs['portfolio'] == 'share' and bs:
+                    # three assets through the library's weighting helper: deposits, bonds, money as the residual
+                    hh.GenerateAssetWeighting({'DEP': repr(hs['share'] * 0.5), 'BOND': repr(bs)}, 'MON')
+                elif hs['portfolio'] == 'share':
                     hh.AddVariable('DEM_DEP', 'Demand for deposits', '%r * F' % (hs['share'],))
                     if g['money']:
                         hh.AddVariable('DEM_MON', 'Demand for money', '%r * F' % (1.0 - hs['share'],))
@@ -558,9 +601,12 @@ def _build(spec, model=None, holder=None, order_seed=None, codes=None, ckey_map=
                     b.names_handed.append((r, dep, 'r'))
                     # households of one zone hand the SAME weighting dict object to the library (a caller re-using its
                     # portfolio rule)
-                    wkey = (gkey, r)
+                    wkey = (gkey, r, bs)
                     if wkey not in b.shared_weightings:
                         b.shared_weightings[wkey] = {'DEP': 'L0 + L1 * {0} - L2 * (AfterTax/F)'.format(r)}
+                        if bs:
+                            b.shared_weightings[wkey] = {'DEP': '0.5 * (L0 + L1 * {0} - L2 * (AfterTax/F))'.format(r),
+                                                         'BOND': repr(bs)}
                     else:
                         b.weightings_reused += 1
                     hh.GenerateAssetWeighting(b.shared_weightings[wkey], 'MON')
@@ -666,7 +712,8 @@ def add_import(b, imp, code, ckey_map):
 def shape_of(spec):
     parts = []
     for z in spec['zones']:
-        f = z['gov']['form'][:4] + ('+m' if z['gov']['money'] else '') + ('+d' if z['gov']['deposits'] else '')
+        f = z['gov']['form'][:4] + ('+m' if z['gov']['money'] else '') + ('+d' if z['gov']['deposits'] else '') + \
+            ('+b' if z['gov'].get('bonds') else '')
         regs = [c for c in z['countries'] if c['role'] != 'central']
         firms = ''.join(sorted(set(c['firm']['form'][0] + ('c' if c.get('cap') else ('r' if c['firm'].get('margin') else '')) + ('u' if c.get('custom') else '') +
                                    (('2h' if c['second_market'].get('hh_share') else '2') if c.get('second_market') else '')
